@@ -93,6 +93,27 @@ func TestC17ServerList(t *testing.T) {
 					a.fail("authorized-servers lists an entry without a valid GCA signature; history %v", hist)
 				}
 			}
+			// what a device is told over the sync port is the same list, at every
+			// point of the history (bans included), not the list of some earlier moment
+			if devN > 0 {
+				raw, refused, err := a.S.SyncDevice(1)
+				if err != nil || refused {
+					a.fail("sync for device 1 failed: %v refused=%v; history %v", err, refused, hist)
+				}
+				r, err := ref.DecodeSyncReply(raw)
+				if err != nil {
+					a.fail("sync reply does not decode: %v; history %v", err, hist)
+				}
+				if len(r.Servers) != len(model) {
+					a.fail("the sync reply lists %d servers, GET authorized-servers and the model %d; history %v", len(r.Servers), len(model), hist)
+				}
+				for i := range r.Servers {
+					if !bytes.Equal(r.Servers[i].Encode(), model[i].Encode()) {
+						a.fail("sync reply entry %d (banned=%v) differs from the server's list (banned=%v); history %v", i, r.Servers[i].Banned, model[i].Banned, hist)
+					}
+				}
+				ev.Label("c17:sync-list-compared")
+			}
 		}
 		post := func(as ref.AuthServer, what string) {
 			valid := ref.Verify(gca.Pub, as.SigningBytes(), as.Sig)
